@@ -222,6 +222,14 @@ def run_suite(ctx, name, gen_args, timeout=1200, driver=None):
                                "replay_cmd": "%s dec-one <type key> %s" % (driver or prep["driver"], line[3][:200])},
                       text="%s of %s hangs on input %s" % (line[1], line[2], line[3][:120]))
         return []
+    if p.returncode != 0 and "could not discover wrapper of oneof member" in p.stderr:
+        # the harness finds the wrapper type of a oneof member by decoding a minimal occurrence of the member: if that does not
+        # select the member, the generated Decode ignores a field of its own schema - a violation of every decoding property
+        msg = [l for l in p.stderr.split("\n") if "could not discover wrapper" in l][0]
+        ctx.violation("oneof-member", {"what": "decoding a minimal occurrence of a oneof member does not select it (the generated Decode has no case for the member): " + msg[:300],
+                                       "replay_cmd": "%s types" % (driver or prep["driver"])},
+                      text="generated Decode ignores a oneof member: " + msg[:200])
+        return []
     if p.returncode != 0:
         raise RuntimeError("driver %s failed: %s" % (gen_args, p.stderr[-2000:]))
     menv = dict(os.environ)
